@@ -120,7 +120,9 @@ fn main() {
             let limit = std::time::Duration::from_secs(secs);
             for line in stdin.lock().lines() {
                 let line = line.unwrap();
-                let r = run_line(&line, limit);
+                // the 2^32-bit EIA3 op needs minutes in this checked build
+                let lim = if line.starts_with("eia_big") { std::time::Duration::from_secs(secs.max(1800)) } else { limit };
+                let r = run_line(&line, lim);
                 writeln!(out, "{}", r).unwrap();
             }
             out.flush().unwrap();
